@@ -1,9 +1,9 @@
 (* Property C03 — demuxing any finite input terminates without panicking
    (theorems only; proofs in Proofs/SafeProofs.v and Proofs/DemuxProofs.v). *)
-From Coq Require Import ZArith List Bool.
+From Coq Require Import ZArith List Bool Lia.
 Require Import Base.Bits Base.Iter Gen.Consts Gen.Types Model.Packet Model.Pool Model.Reader Model.Demux
   Model.Pes Model.Desc Model.Psi Model.DemuxFull
-  Proofs.SafeProofs Proofs.DemuxProofs Proofs.SafeUnits Proofs.SafeDesc Proofs.SafePsi.
+  Proofs.SafeProofs Proofs.DemuxProofs Proofs.SafeUnits Proofs.SafeDesc Proofs.SafePsi Proofs.SafeDemux.
 Import ListNotations.
 Open Scope Z_scope.
 
@@ -73,9 +73,49 @@ Example C03_psi_example :
   parse_psi_data_bytes [0; 0; 176; 13; 0; 1; 193; 0; 0; 0; 1; 240; 0; 1; 2; 3; 4] = Err E_generic.
 Proof. split; [repeat constructor; cbv; intuition discriminate|vm_compute; reflexivity]. Qed.
 
-(* NOT proved here (full statements kept): no panic in the unit parsers (PES, PSI tables, descriptors) and the bound on
-   the number of calls.  Both are exercised on every run: every case runs under recover, a call cap of 3*len+8 turns
-   a non-terminating sequence into a violation, and the model — which has an explicit Panic outcome wherever Go would
-   panic — is compared with the implementation on random, mutated and truncated inputs. *)
+(* ---- C03_no_panic: the whole Demuxer ---- *)
+
+(* [reachable prs skip s] (Proofs/SafeDemux.v): s is the state of a Demuxer created over bytes_ok data with any reader
+   kind (plain / seekable / bufio), with or without an injected reader fault, packet size option 0 (auto-detect) or
+   >= 188, followed by any sequence of NextPacket / NextData / Rewind, with the PES / PSI / descriptor parsers of
+   Model/Pes.v, Psi.v, Desc.v, any PacketSkipper, and no PacketsParser or one that does not itself panic.
+   In every such state neither NextPacket nor NextData panics. *)
+Theorem C03_no_panic : forall prs skip s, parser_no_panic prs -> reachable prs skip s ->
+  fst (next_packet skip s) <> Panic /\ fst (next_data full_parsers prs skip s) <> Panic.
+Proof. exact no_panic_reachable. Qed.
+Print Assumptions C03_no_panic.
+
+(* the invariant behind it, for every reachable state *)
+Theorem C03_reachable_invariant : forall prs skip s, parser_no_panic prs -> reachable prs skip s -> dinv s.
+Proof. exact reachable_inv. Qed.
+Print Assumptions C03_reachable_invariant.
+
+(* the hypotheses are satisfiable and the statement is not vacuous: one 188-byte packet on the PAT PID whose payload is a
+   pointer_field and stuffing; the state after one NextData is reachable (and that call returned ErrNoMorePackets after
+   parsing the unit); a PacketsParser that never panics *)
+Definition C03_example_stream : list Z := [71; 64; 0; 16; 0] ++ repeat 255 183.
+Example C03_no_panic_example :
+  let s0 := init_dstate (new_reader C03_example_stream None Seekable) 188 in
+  bytes_ok C03_example_stream /\ reachable None no_skip (snd (next_data full_parsers None no_skip s0)) /\
+  fst (next_data full_parsers None no_skip s0) = Err E_nomore /\
+  length (d_groups (snd (next_data full_parsers None no_skip s0))) = 1%nat /\
+  parser_no_panic (Some (fun ps => Ok ([], false))).
+Proof.
+  assert (Hb : bytes_ok C03_example_stream) by (apply bytes_okb_ok; vm_compute; reflexivity).
+  cbv zeta. split; [exact Hb|]. split; [apply reach_data; apply reach_init; [exact Hb|right; unfold C_MpegTsPacketSize; lia]|].
+  split; [vm_compute; reflexivity|]. split; [vm_compute; reflexivity|]. intros ps. discriminate.
+Qed.
+
+(* without the reachability hypothesis the statement is false (this is why C03_units_no_panic_full below cannot be a
+   theorem as it stands): a state whose packet buffer has a negative size panics in make([]byte, packetSize) *)
+Theorem C03_unreachable_state_panics :
+  exists s, fst (next_data full_parsers None no_skip s) = Panic.
+Proof.
+  exists (mk_dstate [] (Some (mk_pbuf (-1))) [] [] (new_reader [] None Plain) 0 [] []). vm_compute. reflexivity.
+Qed.
+Print Assumptions C03_unreachable_state_panics.
+
+(* The statement this file carried before C03_no_panic was proved, kept for the record: over ALL states and ALL unit
+   parsers it is false (C03_unreachable_state_panics); its provable content is C03_no_panic. *)
 Definition C03_units_no_panic_full : Prop := forall P prs skip s,
   fst (next_data P prs skip s) <> Panic.
